@@ -273,7 +273,7 @@ def mk_reexam(ctx):
     from orphans and re-applied.  Decided on the loop form (the 's' view turns adaptor chains into loops): the node
     handed to the recursive apply is traced back through the local collections it travels in
     (apply <- nodes <- orphans.remove(hash) <- hashes <- key of every orphan whose children are all present)."""
-    from .loops import loops_of, fills_of, coll_local, loop_of_item, loop_of_block
+    from .loops import loops_of, fills_of, coll_local, loop_of_item, loop_of_block, peel
     facts = ctx.facts
     body = ctx.method(MERKLE, 'CmRDT', 'apply')
     it = interp(facts, body)
@@ -287,7 +287,7 @@ def mk_reexam(ctx):
     seen = _seen_atom(facts, found)
 
     def is_orphan_remove(t):
-        t = drop_lv(t)
+        t = peel(t)
         return is_call(t, ('remove', 'remove_entry')) and len(t[2]) == 2 and param_path(versionless(t[2][0])) == (1, ('orphans',))
 
     def atom(t):
@@ -296,12 +296,12 @@ def mk_reexam(ctx):
         return seen(t)
 
     def strip(v):
-        v = drop_lv(v)
+        v = peel(v)
         while True:
-            if v[0] == 'field' and v[2] in ('Some.0', 'Ok.0') and not (v[1][0] == 'call' and call_name(v[1]) == 'next'):
-                v = drop_lv(v[1])
+            if v[0] == 'field' and v[2] in ('Some.0', 'Ok.0') and not (peel(v[1])[0] == 'call' and call_name(peel(v[1])) == 'next'):
+                v = peel(v[1])
             elif is_call(v, ('unwrap', 'expect', 'unwrap_or_default', 'clone', 'copied', 'cloned')) and v[2]:
-                v = drop_lv(v[2][0])
+                v = peel(v[2][0])
             else:
                 return v
 
@@ -318,7 +318,7 @@ def mk_reexam(ctx):
         t, parts = v, []
         while t[0] == 'field' and loop_of_item(it, t) is None:
             parts.append(t[2])
-            t = drop_lv(t[1])
+            t = peel(t[1])
         lp = loop_of_item(it, t)
         if lp is None:
             return []
@@ -386,9 +386,10 @@ def mk_reexam(ctx):
 
 
 def strip_fields(t):
-    t = drop_lv(t)
-    while t[0] == 'field' and not (t[1][0] == 'call' and call_name(t[1]) == 'next' and t[2] == 'Some.0'):
-        t = drop_lv(t[1])
+    from .loops import peel
+    t = peel(t)
+    while t[0] == 'field' and not (peel(t[1])[0] == 'call' and call_name(peel(t[1])) == 'next' and t[2] == 'Some.0'):
+        t = peel(t[1])
     return t
 
 
